@@ -165,6 +165,21 @@ type histRun struct {
 
 const maxHistCalls = 80
 
+// filterOptional drops the executions of nodes that do not lead to END (they may or may not have run).
+func filterOptional(es []gkit.Exec, ref *gkit.RefResult) []gkit.Exec {
+	opt := map[gkit.Exec]bool{}
+	for _, e := range ref.Optional {
+		opt[e] = true
+	}
+	var out []gkit.Exec
+	for _, e := range es {
+		if !opt[e] {
+			out = append(out, e)
+		}
+	}
+	return out
+}
+
 func runHistory(c CaseHist) (*histRun, *vkit.Failure) {
 	ctx := context.Background()
 	store := gkit.NewByteStore()
@@ -386,7 +401,25 @@ func checkHistory(c CaseHist, which string) (*vkit.Failure, vkit.Meta) {
 		c06 := func() *vkit.Failure {
 			for _, cr := range h.calls {
 				if cr.Err != nil && !cr.Interrupted {
-					return nil // a failing history is C05's business
+					// No node fails (the uninterrupted run succeeds), so a run that ends early was stopped by an
+					// interrupt: when the stopped call itself made progress (or is the first call) the interrupt
+					// was due in this call and has been replaced by an error from which no interrupt information
+					// can be extracted.  (A resumed call failing before any node ran is C05's business.)
+					progressed := cr.Idx == 0
+					for _, ev := range events {
+						if ev.Call == cr.Idx && ev.Phase == "start" {
+							progressed = true
+						}
+					}
+					es := cr.Err.Error()
+					if facts.streamCalls > 0 && hasMappedEdge(c.Spec) && (strings.Contains(es, "cannot convert sr to streamReader[") || strings.Contains(es, "] to streamReader[")) {
+						m.Labels = append(m.Labels, "known-C05-finding-not-judged-here")
+						return nil
+					}
+					if progressed && len(filterOptional(h.env.Execs(), ref)) < len(filterOptional(benv.Execs(), ref)) {
+						return &vkit.Failure{Kind: "interrupt-replaced-by-error", Sig: "interrupt-replaced-by-error", Msg: fmt.Sprintf("call %d (%s) stopped before the run was complete although no node fails, so an interrupt was due; it returned an error that is not an interrupt: %s", cr.Idx, cr.Paradigm, shortErr(cr.Err))}
+					}
+					return nil
 				}
 				if cr.Interrupted {
 					if cr.Info == nil {
@@ -891,4 +924,45 @@ func TestC11ResumeReplay(t *testing.T) {
 		}
 		return checkHistory(c, "C05")
 	})
+}
+
+// ---- C12, graph part: a checkpoint read back from a store restores channels, pending inputs and state ----
+// Histories in which EVERY resume happens on a freshly compiled runnable (nothing but the bytes in the store
+// connects the calls) and every call is Invoke; oracle = C05's (the resumed history equals the uninterrupted
+// run).  Stream calls are left to C05 (its recorded finding needs one).
+
+func genHistStore(t *rapid.T) CaseHist {
+	c := genHist(t)
+	c.Paradigms = []string{"invoke"}
+	c.Fresh = []bool{true}
+	c.NoID = false
+	return c
+}
+
+func checkC12Graph(c CaseHist) (*vkit.Failure, vkit.Meta) {
+	if len(c.Paradigms) != 1 || c.Paradigms[0] != "invoke" || len(c.Fresh) != 1 || !c.Fresh[0] {
+		return nil, vkit.Meta{} // not a case of this part
+	}
+	f, m := checkHistory(c, "C05")
+	if f != nil {
+		f.Msg = "resuming from the stored checkpoint on a freshly compiled runnable: " + f.Msg
+		f.Sig = "store-roundtrip:" + f.Sig
+	}
+	nt := false
+	for _, l := range m.Labels {
+		if strings.HasPrefix(l, "interrupts:") && l != "interrupts:0" && l != "interrupts:1" {
+			nt = true
+		}
+	}
+	m.NonTrivial = nt
+	return f, m
+}
+
+func TestC12Graph(t *testing.T) {
+	rec := vkit.NewRecorder("C12")
+	vkit.Prop(t, rec, genHistStore, checkC12Graph)
+}
+
+func TestC12GraphReplay(t *testing.T) {
+	vkit.Replay(t, "C12", checkC12Graph)
 }
